@@ -6,7 +6,9 @@
    (Gen/Stdlib.v py_whitespace, regenerated from the interpreter). *)
 From Coq Require Import List NArith ZArith Bool String.
 From BS Require Import Base.Sexp Base.Types Base.Lit Gen.Tables Gen.Stdlib Gen.T_C05 Model.Attrs Model.Render
-     Spec.RenderSpec Proofs.RenderProofs Proofs.PrettyProofs.
+     Model.Reparse Model.Build Model.SmartQuotes Spec.BuildSpec Spec.RenderSpec Spec.RoundTrip Spec.PrettyTokens
+     Proofs.RenderProofs Proofs.PrettyProofs Proofs.PrettyReparse.
+From BS Require Model.EntitySubst.
 Import ListNotations.
 Open Scope N_scope.
 
@@ -56,6 +58,87 @@ Print Assumptions C14_ends_with_newline.
 Theorem C14_pw_verbatim : forall enc f t, block_texts (items_spec enc f t) = pw_blocks_spec enc f t.
 Proof. exact prettify_pw_verbatim. Qed.
 Print Assumptions C14_pw_verbatim.
+
+(* ---- the first sentence of the property, on tokens ---- *)
+
+(* what prettify() returns is the spelling of a token sequence: the tags of the plain rendering, each tag and special
+   string outside whitespace-preserving elements between an indentation and a newline text token, each text stripped and
+   wrapped the same way, everything inside a whitespace-preserving element as in the plain rendering *)
+Theorem C14_prettify_is_spelled_pretty_tokens : forall enc f t,
+  prettify enc f t = List.concat (map spell (pretty_tokens enc f t)).
+Proof. exact prettify_is_spelled_pretty_tokens. Qed.
+Print Assumptions C14_prettify_is_spelled_pretty_tokens.
+
+(* Pretty-printed output re-parses to the same tree as the plain output once whitespace inside text is disregarded.
+   For every tree that is representable content (C05) and [pretty_ok] (each element whitespace-preserving for the tree
+   exactly when it is for the re-parsing builder; void elements written as empty-element tags; the parser's raw-text
+   elements cdata-containing for the formatter), every formatter whose indent unit is whitespace, substitution function g
+   and readers rt / ra with: rt undoes g; whitespace reads as itself; a stripped, whitespace-wrapped written text reads
+   back as the text up to whitespace (and not as nothing when a newline follows):
+     - reading the pretty tokens back and building gives norm of the decorated tree [pretty_tree t],
+     - reading the plain tokens back gives norm t (C05),
+     - and the two have the same whitespace-blind canonical form: outside whitespace-preserving elements every text
+       without its whitespace characters (those str.strip() removes) and blank texts dropped; inside them — and for every
+       tag, attribute and special string — exactly equal. *)
+Theorem C14_reparse_modulo_whitespace : forall f rt ra rc g,
+  f_subst f = Some g -> g [] = [] -> (forall s, rt (g s) = s) -> rt [] = [] ->
+  (forall w, all_ws w = true -> rt w = w) ->
+  forall enc cfg, f_void f <> [] -> all_ws (f_indent f) = true ->
+  (forall s w1, all_ws w1 = true -> strip (g s) <> [] -> rt (w1 ++ strip (g s) ++ [10]) <> []) ->
+  (forall s w1 w2, all_ws w1 = true -> all_ws w2 = true -> nows (rt (w1 ++ strip (g s) ++ w2)) = nows s) ->
+  forallb is_ws (c_spaces cfg) = true ->
+  (forall n c, assocS n (c_containers cfg) = Some c -> output_kind c = 0) ->
+  (forall s, ra (attr_inner (g s)) = s) ->
+  memS (c_root cfg) (c_pw cfg) = false -> assocS (c_root cfg) (c_containers cfg) = None ->
+  forall t, representable_top f rc cfg t = true -> pretty_ok_top f rc cfg t = true ->
+  let pt := pretty_tree rt enc f cfg t in
+  spec_run cfg (read_tokens rt ra rc (pretty_tokens enc f t)) = flat_tree cfg (norm enc f cfg pt) /\
+  spec_run cfg (read_tokens rt ra rc (tokens_of enc f t)) = flat_tree cfg (norm enc f cfg t) /\
+  ws_equiv cfg (norm enc f cfg pt) (norm enc f cfg t).
+Proof. exact reparse_modulo_whitespace. Qed.
+Print Assumptions C14_reparse_modulo_whitespace.
+
+(* the 'html' and 'minimal' formatters with the HTML builder's tables: C09's model of substitute_html / substitute_xml,
+   element text read by bs4's reader, attribute values by the model of html.unescape; nothing assumed about them *)
+Theorem C14_reparse_modulo_whitespace_html : forall enc f rc t,
+  f_subst f = Some EntitySubst.substitute_html -> f_void f <> [] -> all_ws (f_indent f) = true ->
+  representable_top f rc html_bcfg t = true -> pretty_ok_top f rc html_bcfg t = true ->
+  let pt := pretty_tree read_text enc f html_bcfg t in
+  spec_run html_bcfg (read_tokens read_text EntitySubst.unescape rc (pretty_tokens enc f t)) = flat_tree html_bcfg (norm enc f html_bcfg pt) /\
+  spec_run html_bcfg (read_tokens read_text EntitySubst.unescape rc (tokens_of enc f t)) = flat_tree html_bcfg (norm enc f html_bcfg t) /\
+  ws_equiv html_bcfg (norm enc f html_bcfg pt) (norm enc f html_bcfg t).
+Proof. exact reparse_modulo_whitespace_html. Qed.
+Print Assumptions C14_reparse_modulo_whitespace_html.
+
+Theorem C14_reparse_modulo_whitespace_minimal : forall enc f rc t,
+  f_subst f = Some subst_xml -> f_void f <> [] -> all_ws (f_indent f) = true ->
+  representable_top f rc html_bcfg t = true -> pretty_ok_top f rc html_bcfg t = true ->
+  let pt := pretty_tree read_text enc f html_bcfg t in
+  spec_run html_bcfg (read_tokens read_text EntitySubst.unescape rc (pretty_tokens enc f t)) = flat_tree html_bcfg (norm enc f html_bcfg pt) /\
+  spec_run html_bcfg (read_tokens read_text EntitySubst.unescape rc (tokens_of enc f t)) = flat_tree html_bcfg (norm enc f html_bcfg t) /\
+  ws_equiv html_bcfg (norm enc f html_bcfg pt) (norm enc f html_bcfg t).
+Proof. exact reparse_modulo_whitespace_minimal. Qed.
+Print Assumptions C14_reparse_modulo_whitespace_minimal.
+
+(* ... and everything inside whitespace-preserving elements is reproduced exactly: two re-parsed trees with the same
+   whitespace-blind form have identical sub-trees under their outermost whitespace-preserving elements *)
+Theorem C14_reparse_pw_exact : forall cfg a b, ws_equiv cfg a b -> pw_parts cfg a = pw_parts cfg b.
+Proof. exact ws_equiv_pw_exact. Qed.
+Print Assumptions C14_reparse_pw_exact.
+
+(* the hypotheses are satisfiable:  <div><pre> x </pre>y <br/><script> 1 </script></div>  under 'minimal' *)
+Example C14_reparse_example :
+  let f := mkfmt (Some subst_xml) [47] html_cdata_containing_tags false [32] in
+  let pw := default_preserve_whitespace_tags in
+  let tag (n : string) void ks := NTag (mktag (lit n) None [] false void pw) ks in
+  let t := tag "div"%string false [tag "pre"%string false [NStr 0 (lit " x ")]; NStr 0 (lit "y "); tag "br"%string true [];
+                                  tag "script"%string false [NStr 8 (lit " 1 ")]] in
+  let rc := html_rcfg true in
+  representable_top f rc html_bcfg t = true /\ pretty_ok_top f rc html_bcfg t = true /\
+  ws_canon html_bcfg (norm true f html_bcfg (pretty_tree read_text true f html_bcfg t)) =
+  ws_canon html_bcfg (norm true f html_bcfg t) /\
+  pw_parts html_bcfg (norm true f html_bcfg t) = [NT (lit "pre") [] [NS 0 (lit " x ")]].
+Proof. repeat split; vm_compute; reflexivity. Qed.
 
 (* Formatter.indent: None -> "", int n -> n spaces (negative -> none), str -> itself, anything else -> one space *)
 Theorem C14_formatter_indent_int : forall z, formatter_indent (IndInt z) = repeat_str [32] (Z.to_nat z).
